@@ -46,6 +46,13 @@ class C11(CurveCheck):
                         "u32-max" if 2**32 - 1 in (i, j) else "boundary" if max(i, j) > 18 else "small"
                     cs.append(Case("subaddr %s %s %d %d %s" % (v, s, i, j, NETS[k % 4]), cls))
                     k += 1
+        # the same non-zero index derived for DIFFERENT wallets back to back (index-major order): a derivation must depend on the
+        # wallet of THIS call only, whatever was derived just before on the same thread
+        for (i, j) in ((1, 0), (0, 1), (2, 18), (0xff, 0x100), (2**32 - 1, 1)):
+            for rep in range(2):
+                for (v, s) in wallets + wallets[::-1]:
+                    cs.append(Case("subaddr %s %s %d %d %s" % (v, s, i, j, NETS[(k + rep) % 4]), "index-major-order"))
+                    k += 1
         # edge scalars
         for v, s in ((0, 0), (1, 1), (L - 1, L - 1), (0, L - 1), (L - 1, 1)):
             for (i, j) in ((0, 0), (0, 1), (1, 0), (2**32 - 1, 2**32 - 1)):
